@@ -1,12 +1,15 @@
 import Desert.Lemmas.BitsBV
 import Desert.Lemmas.VarInt
+import Desert.Lemmas.BitsTie
 import Std.Tactic.BVDecide
 /-!
 # C11 — variable-length integers: total bijection with minimal length
 
 Theorems about the bit-exact transcription (`Desert/Bits.lean`), for all 2^32 values at once, and
-about the Nat-level ladder that the codec layer uses (`Desert/Num.lean`). The bit-level theorems
-use `bv_decide` (axioms `*._native.bv_decide.ax_*`, listed by the audit).
+about the Nat-level ladder that the codec layer uses (`Desert/Num.lean`). The two layers are tied by
+theorems, not only by the run: `layers_agree_u32` / `layers_agree_i32` — the shift-and-mask writers
+produce, byte for byte, what the arithmetic ladder produces, for all 2^32 values. The bit-level
+theorems use `bv_decide` (axioms `*._native.bv_decide.ax_*`, listed by the audit).
 -/
 
 set_option linter.unusedSimpArgs false
@@ -127,5 +130,13 @@ theorem spec_uv_length (n : Nat) : 1 ≤ (uv n).length ∧ (uv n).length ≤ 5 :
 /-- non-vacuity: a concrete five-byte value through both layers -/
 example : Bits.readVarU32 (Bits.writeVarU32 0xFFFFFFFF#32 ++ [7#8]) = some (0xFFFFFFFF#32, [7#8]) := by decide
 example : Bits.writeVarI32 (-1#32) = [1#8] := by decide
+
+/-- the bit-exact writer and the codec model's ladder write the same bytes, for every `u32` -/
+theorem layers_agree_u32 (x : BitVec 32) : (Bits.writeVarU32 x).map (·.toNat) = (uv x.toNat).map (·.toNat) :=
+  writeVarU32_eq_uv x
+
+/-- the same for `i32`: bit-level zig-zag and var-int = arithmetic zig-zag and ladder on the signed value -/
+theorem layers_agree_i32 (x : BitVec 32) : (Bits.writeVarI32 x).map (·.toNat) = (zz x.toInt).map (·.toNat) :=
+  writeVarI32_eq_zz x
 
 end C11
